@@ -70,6 +70,43 @@ Theorem C11_multi_prompt : forall fuel mp, m_queue mp <> [] \/ snd (sweep (S fue
   exists mp' m, multi_receive (S fuel) true mp = (mp', Ok (Some m)) /\ m_sleeps mp' = m_sleeps mp.
 Proof. exact multi_blocking_prompt. Qed.
 Print Assumptions C11_multi_prompt.
+(* the IOPort wrapper over an input and an output port (model IOPortM.v: every call forwarded, close closes both, the wrapped ports may
+   also be closed directly), for EVERY pair of devices and EVERY history: each device is released exactly when its port is closed and never
+   twice, a closed wrapper has released both; after close send raises ValueError and changes nothing; receive, poll and iteration hand
+   out what the input port had taken in and then stop; iteration never ends with an exception *)
+Require Import Mido.Model.IOPortM Mido.Proofs.IOPortProofs.
+Theorem C11_ioport_close_once : forall fuel ar_i echo_i script_i faults_i ar_o echo_o script_o faults_o ops,
+  let io := fst (io_run fuel (new_ioport (new_port ar_i echo_i script_i faults_i) (new_port ar_o echo_o script_o faults_o)) ops) in
+  Inv (io_in io) /\ Inv (io_out io) /\ (io_closed io = true -> p_closes (io_in io) = 1%nat /\ p_closes (io_out io) = 1%nat).
+Proof. exact io_close_once. Qed.
+Print Assumptions C11_ioport_close_once.
+Theorem C11_ioport_close_idempotent : forall io, io_closed io = true -> io_close io = io.
+Proof. exact io_close_idempotent. Qed.
+Print Assumptions C11_ioport_close_idempotent.
+Theorem C11_ioport_send_closed : forall io m, io_closed io = true -> io_send io m = (io, Raise ValueError).
+Proof. exact io_send_closed. Qed.
+Print Assumptions C11_ioport_send_closed.
+Theorem C11_ioport_drain_receive : forall fuel b io m q, IOInv io -> io_closed io = true -> p_queue (io_in io) = m :: q ->
+  exists io', io_receive fuel b io = (io', Ok (Some m)) /\ p_queue (io_in io') = q /\ io_closed io' = true.
+Proof. exact io_drain_receive. Qed.
+Print Assumptions C11_ioport_drain_receive.
+Theorem C11_ioport_drain_iteration : forall fuel io q n, IOInv io -> io_closed io = true -> p_echo (io_in io) = false -> p_queue (io_in io) = q -> (length q < n)%nat ->
+  exists io', io_iterate n fuel io = (io', Ok q) /\ p_queue (io_in io') = [] /\ io_closed io' = true.
+Proof. exact io_drain_iteration. Qed.
+Print Assumptions C11_ioport_drain_iteration.
+Theorem C11_ioport_then_stops : forall fuel io, IOInv io -> io_closed io = true -> p_queue (io_in io) = [] ->
+  snd (io_receive fuel false io) = Ok None /\ snd (io_receive fuel true io) = Raise ValueError /\
+  (p_echo (io_in io) = false -> forall n, snd (io_iterate n fuel io) = Ok []).
+Proof. exact io_then_stops. Qed.
+Print Assumptions C11_ioport_then_stops.
+Theorem C11_ioport_iteration_ends_cleanly : forall n fuel io io' e, p_echo (io_in io) = false -> io_iterate n fuel io = (io', Raise e) -> e = Diverges.
+Proof. exact io_iteration_ends_cleanly. Qed.
+Print Assumptions C11_ioport_iteration_ends_cleanly.
+(* the invariant the drain theorems assume holds in every reachable state *)
+Theorem C11_ioport_reachable : forall fuel ops io, IOInv io -> IOInv (fst (io_run fuel io ops)).
+Proof. exact io_run_inv. Qed.
+Print Assumptions C11_ioport_reachable.
+
 Example C11_nonvacuous : snd (port_run 5 (new_port false false [APush [1; 2]; AClose] []) [PIterate 1000; PPoll; PClose])
   = [OList_ [1; 2]; OMsg_ None; ONone_].
 Proof. vm_compute. reflexivity. Qed.
